@@ -168,6 +168,10 @@ func C14(c *Ctx) {
 	}
 	c14Builder(c)
 	traversalExhaustiveness(c, "C14-d", []string{"RecoveryExpr", "ThrowExpr"})
+	if g := c.G(); g != nil {
+		r.Rule("C14-e", "a clone made by -optimize-grammar keeps every field of the node (C09-h under this property): an inlined throw keeps its label, an inlined recovery operator its label list")
+		cloneKeepsFields(c, g, "C14-e")
+	}
 }
 
 // freshTopSlot checks that a push function leaves, on every path, a map at the top slot of p.<stack> that holds
